@@ -150,6 +150,9 @@ def random_case(rng, features=()):
             defines = []
             for m in rng.sample(CMD_MACROS, rng.randint(0, 2)):
                 defines.append(rng.choice([m, m + "=0", m + "=2", m + "=1"] + ([m + "="] if rng.random() < 0.3 else [])))
+            if "redefine" in features:
+                # which of several definitions wins is the tool's choice; keep every candidate value a valid #if operand
+                defines = [d for d in defines if not d.endswith("=")]
             if "redefine" in features and defines:
                 # the same macro given several times with different values (only for order/hash-seed independence
                 # checks: which one wins is the tool's choice, but it must always be the same one)
